@@ -68,8 +68,8 @@ def main():
         if os.path.exists(os.path.join(src, 'check.py')):
             for name in ('clean', 'patched'):
                 env = dict(os.environ, PYTHONPATH=os.path.join(W, name), NUMBA_CACHE_DIR=os.path.join(W, 'nc-' + name), PYTHONWARNINGS='ignore')
-                shutil.copy(os.path.join(src, 'check.py'), os.path.join(W, name, '_benign_check.py'))
-                rc, out = sh([PY, '_benign_check.py'], cwd=os.path.join(W, name), env=env, timeout=1800)
+                shutil.copy(os.path.join(src, 'check.py'), os.path.join(W, name, 'check.py'))
+                rc, out = sh([PY, 'check.py'], cwd=os.path.join(W, name), env=env, timeout=1800)
                 meta['author_check_%s_rc' % name] = rc
                 meta['ran'].append('check.py on %s copy -> rc %d' % (name, rc))
                 print('author check on %s: rc=%d %s' % (name, rc, out[-200:].replace('\n', ' | ') if rc else ''))
@@ -99,11 +99,14 @@ def main():
             dst = os.path.join('/verif/seeded/benign', a.bid)
             os.makedirs(dst, exist_ok=True)
             for f in ('patch.diff', 'check.py', 'notes.md'):
-                if os.path.exists(os.path.join(src, f)):
+                if os.path.exists(os.path.join(src, f)) and os.path.abspath(src) != os.path.abspath(dst):
                     shutil.copy(os.path.join(src, f), dst)
             mp = os.path.join(dst, 'meta.json')
             old = json.load(open(mp)) if os.path.exists(mp) else {}
+            merged = dict(old.get('checks_rc', {}), **rcs)       # a partial re-run replaces only the checks it ran
             old.update(meta)
+            old['checks_rc'] = merged
+            old['silent'] = all(rc == 0 for rc in merged.values())
             json.dump(old, open(mp, 'w'), indent=1)
         return 0
     finally:
